@@ -723,8 +723,16 @@ def check_function(case):
     return r
 
 
+@st.composite
+def st_linear_mri(draw):
+    c = draw(LO.st_mri())
+    c["aseed"] = draw(A.seeds)
+    return c
+
+
 PARTS = [
     Part("linear", check_linear, {"quick": 1800, "thorough": 40000}, strategy=st_linear),
+    Part("linear-mri", check_linear, {"quick": 300, "thorough": 6000}, strategy=st_linear_mri),
     Part("history", check_history, {"quick": 640, "thorough": 12000}, machine=make_machine, kind="stateful", steps=25),
     Part("functions", check_function, {"quick": 3000, "thorough": 60000}, strategy=st_function),
 ]
